@@ -3,7 +3,9 @@ import Retro.Drv.RenderCommon
 namespace Retro.Drv.C02
 open Retro Retro.Render Retro.Drv Retro.Drv.RenderCommon
 
-def handle (case impl : List String) : Verdict :=
+def handle (case0 impl : List String) : Verdict :=
+  let needle := case0.contains "needle=1"
+  let case := case0.filter fun t => !t.startsWith "needle="
   let s := parseScene case
   let io := parseImpl impl
   let flags := s!"cull-{s.cull},test-{s.test},cw{if s.cw then 1 else 0}dw{if s.dw then 1 else 0},sh{s.sh}"
@@ -24,6 +26,8 @@ def handle (case impl : List String) : Verdict :=
       | none => v
     let v := v.withSpec (nanDepth io) "nan-depth" "NaN in the depth buffer"
     let v := v.withSpec (!io.same) "front-door-differs" "Batch/Camera front door renders differently from render()"
+    -- needle triangles (f32 edge crossings near a pixel centre): impl-only oracle
+    if needle then v.addTag "needle" else
     -- correspondence with the exact model outside the ambiguity masks
     let tris := screenTris s io
     let frs := modelFragDepths s tris
